@@ -324,3 +324,98 @@ def c16_owncore(R):
             construct="unsat_core: core elements drawn from self.constraints",
         )
     R.need(n_ret >= 1, "FullFrontend.unsat_core: no return of a core found")
+
+
+@rule(
+    "FE.z3cow.who",
+    props=("C14", "C11"),
+    floor=2,
+    family="WHO",
+    desc="the native solver of a FullFrontend receives constraints in one place only: _get_solver (which first replaces a "
+    "solver shared with a finalized copy by a clone) and the helper it calls; no other method of the frontend classes "
+    "pushes constraints into `self._tls.solver`",
+)
+def fe_z3cow_who(R):
+    tree = R.tree
+    m = tree.mod(FF)
+    cls = tree.cls(FF, "FullFrontend")
+    ms = util.methods_of(cls)
+    pushers = set()
+    for name, fn in ms.items():
+        for c in walk_no_nested(fn):
+            if isinstance(c, ast.Call) and isinstance(c.func, ast.Attribute) and c.func.attr == "add" and ast.unparse(c.func.value).endswith("_solver_backend"):
+                pushers.add(name)
+    R.need(pushers, "FullFrontend: no method asserts into the native solver any more")
+    # callers, transitively, inside the frontend package
+    n = 0
+    allowed_entry = "_get_solver"
+    for mm in tree.modules.values():
+        if not mm.path.startswith("claripy/frontend/"):
+            continue
+        for q, fn in mm.functions.items():
+            short = q.split(".")[-1]
+            for c in walk_no_nested(fn):
+                if not (isinstance(c, ast.Call) and isinstance(c.func, ast.Attribute)):
+                    continue
+                direct = c.func.attr == "add" and ast.unparse(c.func.value).endswith("_solver_backend")
+                via = c.func.attr in pushers and isinstance(c.func.value, ast.Name) and c.func.value.id == "self" and c.func.attr != allowed_entry
+                if not (direct or via):
+                    continue
+                n += 1
+                ok = (direct and short in pushers and mm.path == FF) or (via and short == allowed_entry and mm.path == FF)
+                R.check(
+                    ok,
+                    mm,
+                    c,
+                    f"{q}: constraints reach the native solver through _get_solver only",
+                    f"{q} pushes constraints into the native solver (`{norm(c)[:70]}`) outside _get_solver: a solver that was finalized "
+                    f"by an earlier branch shares its native solver with that copy, and only _get_solver replaces it by a clone first - "
+                    f"after query; branch; add; branch the first branch answered with the later constraint (b1.max(x) = 3 instead of 9)",
+                    construct=f"{q}: asserts into the native solver",
+                )
+    R.need(n >= 2, f"only {n} sites assert into the native solver")
+
+
+@rule(
+    "C02.zerosign",
+    props=("C02", "C26"),
+    floor=1,
+    family="GRD",
+    desc="no order comparison of X with 0 is evaluated under the fact X == 0: it is constant, and where it is meant to "
+    "give the sign of a floating-point zero the sign of -0.0 is lost (the sign of a zero is read with copysign, from the "
+    "text or from the bits)",
+)
+def c02_zerosign(R):
+    tree = R.tree
+    n = 0
+    scanned = 0
+    for mm in tree.modules.values():
+        for q, fn in mm.functions.items():
+            src = ast.unparse(fn)
+            if "== 0" not in src and "== 0.0" not in src:
+                continue
+            scanned += 1
+            for c in walk_no_nested(fn):
+                if not (isinstance(c, ast.Compare) and len(c.ops) == 1 and isinstance(c.ops[0], (ast.Lt, ast.Gt))):
+                    continue
+                a, b = c.left, c.comparators[0]
+                if isinstance(b, ast.Constant) and b.value == 0 and not isinstance(b.value, bool):
+                    x = ast.unparse(a)
+                elif isinstance(a, ast.Constant) and a.value == 0 and not isinstance(a.value, bool):
+                    x = ast.unparse(b)
+                else:
+                    continue
+                facts = [re.sub(r"\s+", " ", f) for f in guards.holds(c)]
+                if any(f in (f"{x} == 0", f"{x} == 0.0", f"0 == {x}", f"0.0 == {x}") for f in facts):
+                    n += 1
+                    R.bad(
+                        mm,
+                        c,
+                        f"{q} evaluates `{norm(c)}` under the fact `{x} == 0`: the comparison is constant (False also for -0.0), so "
+                        f"as the sign of a zero it turns -0.0 into +0.0 - FPV(-0.0) reached Z3 as +0.0 and 1.0 / -0.0 was +inf on the "
+                        f"solver path",
+                        construct=f"{q}: sign of a zero by order comparison",
+                    )
+    R.need(scanned >= 20, f"only {scanned} functions with a zero test scanned")
+    if n == 0:
+        R.ok(tree.mod(Z3B), None, f"no order comparison with 0 under a zero fact in {scanned} functions that test for zero")
